@@ -147,14 +147,21 @@ func (p *Report) Sample(x interface{}) {
 // Violation records a refutation. key is the stable fingerprint.
 func (p *Report) Violation(key, what string, witness interface{}) {
 	p.mu.Lock()
-	defer p.mu.Unlock()
 	if v, ok := p.viol[key]; ok {
 		v.Count++
+		p.mu.Unlock()
 		return
 	}
 	v := &Violation{Key: key, What: what, Witness: witness, Count: 1}
 	p.viol[key] = v
 	p.r.Violations = append(p.r.Violations, v)
+	n := len(p.viol)
+	p.mu.Unlock()
+	if n <= 40 {
+		// on disk at once: if a later scenario hangs on the same defect (a write call that never returns) and the watchdog ends
+		// the child, the driver still has the violation
+		p.Checkpoint()
+	}
 }
 
 // NViolations returns the number of distinct violation keys so far.
